@@ -153,7 +153,7 @@ def main():
     na = [{"property_id": p, "reason": na_extra.get(p, PENDING_REASON)} for p in ALL if p not in CHECKS]
     man = {
         "version": 1,
-        "setup_cmd": "cd /verif/lean && lake build",
+        "setup_cmd": "/verif/setup.sh",
         "hooks": {
             "guard": "DFOLS_VERIF",
             "enable": "no source hooks: instrumentation is monkey-patched wrappers installed by the harness at run time (DFOLS_VERIF=1 is set by the harness for symmetry only)",
